@@ -69,7 +69,7 @@ theorem elabIfacesAll_ok (p : Pkg) :
         (∀ x ∈ newR, st.types.resources.length ≤ x ∧ x < st'.types.resources.length) ∧
         env'.ifaces = env.ifaces ++ (List.zip ifs res).flatMap
           (fun x => [(x.1.1, x.2.2), (p.idOf x.1.1, x.2.2)]) ∧
-        ∀ (RL : List Nat), RL.length = env.next → ConsE ρ (RL ++ newR) st'.types →
+        ∀ (ρ : Nat → Res) (RL : List Nat), RL.length = env.next → ConsE ρ (RL ++ newR) st'.types →
           RootSim ρ st.types st.root env.ifaces →
           (env.ifaces.map (·.1) ++ ifs.flatMap (fun ni => [ni.1, p.idOf ni.1])).Nodup →
           (∀ nx ∈ env'.ifaces, (nx.2.map (·.1)).Nodup) →
@@ -85,7 +85,7 @@ theorem elabIfacesAll_ok (p : Pkg) :
     simp only [denIfaces, List.foldlM_nil, Option.pure_def, Option.some.injEq] at hd
     subst hd
     exact ⟨Grow.refl _, rfl, [], [], by simp, List.Pairwise.nil, by simp, by simp,
-      fun _ _ _ hrs _ _ => ⟨hrs, trivial⟩⟩
+      fun _ _ _ _ hrs _ _ => ⟨hrs, trivial⟩⟩
   | cons ni r ih =>
     intro st st' env env' h hd
     simp only [elabIfaces, List.foldlM_cons] at h
@@ -100,7 +100,7 @@ theorem elabIfacesAll_ok (p : Pkg) :
       simp only [hdec] at h
       have h' : elabIfaces p r { st1 with root := st1.root ++ [(ni.1, .iface i)] } = .ok st' := h
       have hd2' : denIfaces p r env1 = some env' := hd2
-      obtain ⟨g1, rt1, sc1, k1⟩ := interfaceDeclAll_ok (ρ := ρ) hdec
+      obtain ⟨g1, rt1, sc1, k1⟩ := interfaceDeclAll_ok hdec
       obtain ⟨g2, sc2, newR2, res, hn2, hp2, hr2, henv, kk2⟩ := ih _ _ _ _ h' hd2'
       obtain ⟨newR1, hn1, hp1, hr1, kk1⟩ := k1 (p.idOf ni.1) env.ifaces env.next next1 ex hne
       have hl1 := g1.ext.resources_len
@@ -121,7 +121,7 @@ theorem elabIfacesAll_ok (p : Pkg) :
         · have h3 : st1.types.resources.length ≤ x ∧ x < st'.types.resources.length := hr2 x hx
           omega
       · rw [henv, henv1i]; simp
-      · intro RL hRL hcons hrs hkeys hnd
+      · intro ρ RL hRL hcons hrs hkeys hnd
         have hex_nd : (ex.map (·.1)).Nodup := by
           apply hnd (ni.1, ex)
           rw [henv, henv1i]
@@ -129,7 +129,7 @@ theorem elabIfacesAll_ok (p : Pkg) :
         have hcons1 : ConsE ρ (RL ++ newR1) st1.types :=
           ConsE.back (RL' := RL ++ (newR1 ++ newR2)) hcons g2 (fun k idx hk => by
             rw [← List.append_assoc]; exact prefix_append_getElem? _ _ _ _ hk)
-        obtain ⟨hk, itf, hitf, hexp⟩ := kk1 RL hRL hcons1 hrs hex_nd
+        obtain ⟨hk, itf, hitf, hexp⟩ := kk1 ρ RL hRL hcons1 hrs hex_nd
         have hfresh : alGet env.ifaces ni.1 = none := by
           apply alGet_none_of_not_mem
           intro hm
@@ -142,7 +142,7 @@ theorem elabIfacesAll_ok (p : Pkg) :
         have hkeys1 : (env1.ifaces.map (·.1) ++ r.flatMap (fun nj => [nj.1, p.idOf nj.1])).Nodup := by
           rw [henv1i]
           simpa [List.flatMap_cons, List.append_assoc] using hkeys
-        obtain ⟨hrs', hall⟩ := kk2 (RL ++ newR1) (by rw [henv1n, hn1]; simp [hRL])
+        obtain ⟨hrs', hall⟩ := kk2 ρ (RL ++ newR1) (by rw [henv1n, hn1]; simp [hRL])
           (by rw [List.append_assoc]; exact hcons) hrs1 hkeys1 hnd
         have hs2 : Types.size st1.types ≤ Types.size st'.types := g2.size
         exact ⟨hrs', HK.mono hk g2.ext (by unfold kb vb; omega), hall⟩
